@@ -37,6 +37,11 @@ func plans(quick bool) []netsim.CrashPlan {
 	ps = append(ps, netsim.CrashPlan{Name: "flush-7v-victim3", N: 7, Victim: 3, Flush: true, Heights: 3})
 	ps = append(ps, netsim.CrashPlan{Name: "flush-1v-rotate-late-txs", N: 1, Victim: 0, Flush: true, Heights: 5, Rotate: 900, Late: true, WithTxs: true})
 	ps = append(ps, netsim.CrashPlan{Name: "flush-4v-victim0-rotate-txs", N: 4, Victim: 0, Flush: true, Heights: 5, Rotate: 2500, WithTxs: true})
+	for v := 0; v < 4; v++ {
+		// the victim is the round-1 proposer of an even height for one v, the round-2 proposer for another
+		ps = append(ps, netsim.CrashPlan{Name: fmt.Sprintf("flush-4v-victim%d-round2-txs", v), N: 4, Victim: v, Flush: true, Heights: 4, Round2: true, WithTxs: true, Late: v%2 == 1})
+	}
+	ps = append(ps, netsim.CrashPlan{Name: "cache-4v-victim2-round2", N: 4, Victim: 2, Flush: false, Heights: 4, Round2: true})
 	for v := 0; v < 4; v += 2 {
 		ps = append(ps, netsim.CrashPlan{Name: fmt.Sprintf("flush-4v-victim%d-second-txs", v), N: 4, Victim: v, Flush: true, Heights: 4, Second: true, WithTxs: true})
 	}
